@@ -40,7 +40,8 @@ ASSUMPTIONS = [
 ]
 BOUNDS = {
     "quick": dict(full_menu_total_strides=3, reduced_menu_total_strides=4, bounds=[1, 2, 3, 4], steps=[1, 2, 3, 4, 6, 8, 12, 16, 24]),
-    "thorough": dict(full_menu_total_strides=4, reduced_menu_total_strides=5, bounds=[1, 2, 3, 4], steps=[1, 2, 3, 4, 6, 8, 12, 16, 24]),
+    "thorough": dict(full_menu_total_strides=4, reduced_menu_total_strides=5, bounds=[1, 2, 3, 4], steps=[1, 2, 3, 4, 6, 8, 12, 16, 24],
+                     note="4-stride layouts: steps 1..12 (7 values); 5-stride layouts: bounds 1..3 x steps {1,2,6,12}; dynamic layouts with 5 strides: steps {1,4,16}, run-time bounds {1,3}"),
 }
 
 B_FULL = [1, 2, 3, 4]
@@ -80,9 +81,10 @@ def space(tier):
     kfull = BOUNDS[tier]["full_menu_total_strides"]
     kred = BOUNDS[tier]["reduced_menu_total_strides"]
     for k in range(1, kfull + 1):
-        parts.append(Tagged("static", _static_space(k, B_FULL, S_FULL)))
+        # thorough: the 4-stride layouts use 7 of the 9 steps (28^4 x 7 compositions), so that the tier completes under its time cap
+        parts.append(Tagged("static", _static_space(k, B_FULL, S_FULL if (k <= 3 or tier == "quick") else S_FULL[:7])))
     for k in range(kfull + 1, kred + 1):
-        parts.append(Tagged("static", _static_space(k, B_RED, S_RED)))
+        parts.append(Tagged("static", _static_space(k, B_RED, S_RED if k <= 4 else [1, 2, 6, 12])))
     # dynamic slice: layouts with a dynamic outermost bound and/or step per dim
     parts.append(Tagged("dynamic", _dynamic_space(tier)))
     parts.append(Tagged("lccb", _lccb_space(tier)))
@@ -241,10 +243,12 @@ def _dynamic_space(tier):
             strides_k = [(b, s) for b in [1, 2, 4] for s in [1, 2, 4, 8, 16]]
         elif k == 3:
             strides_k = [(b, s) for b in [1, 2, 4] for s in ([1, 2, 4, 8, 16] if th else [1, 4, 8, 16])]
-        else:
+        elif k == 4:
             strides_k = [(b, s) for b in [2, 4] for s in ([1, 4, 8, 16] if th else [1, 4, 8])]
+        else:
+            strides_k = [(b, s) for b in [2, 4] for s in [1, 4, 16]]
         masks = [m for m in itertools.product([0, 1, 2], repeat=len(comp)) if any(m)]
-        rts = [1, 2, 3] if (th or len(comp) == 1) else [1, 3]
+        rts = [1, 2, 3] if ((th and k <= 4) or len(comp) == 1) else [1, 3]
         rt = list(itertools.product(rts, repeat=len(comp)))
         parts.append(Product([comp], power(strides_k, k), masks, rt, [0, None] if k <= 2 else [0]))
     return Concat(*parts)
